@@ -127,6 +127,10 @@ def check(rep):
     PR.rule_renderers(ctx, skip_tags=("w",))
     PR.rule_literal_terms(ctx)
     PR.rule_placement(ctx, rid="C05.PLACEMENT")
+    # at run time the choice function must hand back the declared item itself, not another item that merely compares equal
+    # to it (0 and 0.0, 1 and True): abstract runs with items of alternating kinds
+    from . import choicerules as CR
+    CR.report(ctx, "C05", facets=("interior",), names={"interior": "RETURNED-ITEM-EXACT"})
     rep.assume("a decimal literal beyond double range is read as inf by float(); it must still reach the generated code as a literal (D13)")
     rep.assume("repr()/str() of int and float round-trip exactly (CPython)")
     return ("Decides that no stage between token and emitted constant can change a literal: token actions are exact conversions "
